@@ -541,15 +541,33 @@ func (bp *baseProcessor) createMiniBlockHeaders(body *block.Body) (int, []block.
 	return totalTxCount, miniBlockHeaders, nil
 }
 
-// check if header has the same miniblocks as presented in body
-func (bp *baseProcessor) checkHeaderBodyCorrelation(miniBlockHeaders []block.MiniBlockHeader, body *block.Body) error {
-	mbHashesFromHdr := make(map[string]*block.MiniBlockHeader, len(miniBlockHeaders))
-	for i := 0; i < len(miniBlockHeaders); i++ {
-		mbHashesFromHdr[string(miniBlockHeaders[i].Hash)] = &miniBlockHeaders[i]
-	}
+// miniBlockHeaderInfo holds the fields of a mini block header which have to be the same in the mini block from body
+type miniBlockHeaderInfo struct {
+	hash            string
+	senderShardID   uint32
+	receiverShardID uint32
+	mbType          block.Type
+	txCount         uint32
+}
 
+// check if header has the same miniblocks as presented in body: each mini block header has to be matched by
+// exactly one mini block from body, having the same hash, sender shard, receiver shard, type and number of txs
+func (bp *baseProcessor) checkHeaderBodyCorrelation(miniBlockHeaders []block.MiniBlockHeader, body *block.Body) error {
 	if len(miniBlockHeaders) != len(body.MiniBlocks) {
 		return process.ErrHeaderBodyMismatch
+	}
+
+	// the same mini block header could be present more than once, so the not yet matched ones are counted
+	numUnmatchedMbHdrs := make(map[miniBlockHeaderInfo]int, len(miniBlockHeaders))
+	for i := 0; i < len(miniBlockHeaders); i++ {
+		mbHdrInfo := miniBlockHeaderInfo{
+			hash:            string(miniBlockHeaders[i].Hash),
+			senderShardID:   miniBlockHeaders[i].SenderShardID,
+			receiverShardID: miniBlockHeaders[i].ReceiverShardID,
+			mbType:          miniBlockHeaders[i].Type,
+			txCount:         miniBlockHeaders[i].TxCount,
+		}
+		numUnmatchedMbHdrs[mbHdrInfo]++
 	}
 
 	for i := 0; i < len(body.MiniBlocks); i++ {
@@ -563,22 +581,18 @@ func (bp *baseProcessor) checkHeaderBodyCorrelation(miniBlockHeaders []block.Min
 			return err
 		}
 
-		mbHdr, ok := mbHashesFromHdr[string(mbHash)]
-		if !ok {
+		mbInfo := miniBlockHeaderInfo{
+			hash:            string(mbHash),
+			senderShardID:   miniBlock.SenderShardID,
+			receiverShardID: miniBlock.ReceiverShardID,
+			mbType:          miniBlock.Type,
+			txCount:         uint32(len(miniBlock.TxHashes)),
+		}
+		if numUnmatchedMbHdrs[mbInfo] == 0 {
 			return process.ErrHeaderBodyMismatch
 		}
 
-		if mbHdr.TxCount != uint32(len(miniBlock.TxHashes)) {
-			return process.ErrHeaderBodyMismatch
-		}
-
-		if mbHdr.ReceiverShardID != miniBlock.ReceiverShardID {
-			return process.ErrHeaderBodyMismatch
-		}
-
-		if mbHdr.SenderShardID != miniBlock.SenderShardID {
-			return process.ErrHeaderBodyMismatch
-		}
+		numUnmatchedMbHdrs[mbInfo]--
 	}
 
 	return nil
